@@ -46,7 +46,7 @@ func init() { core.Register(c01{}) }
 func (c01) ID() string    { return "C01" }
 func (c01) Level() string { return "exploration" }
 func (c01) Rule() string {
-	return "seeded programs of uploads (6 encodings, multipart, copy) and reads over a pool of keys, with request fragmentation, routing over 1-3 gateway instances on the same storage and restarts; non-trivial = an acknowledged write that was later read back; distinct = (upload kind/encoding, size class, key class, storage config, read kind, served by another instance, restart in between)"
+	return "seeded programs of uploads (6 encodings, multipart, copy) and reads over a pool of keys, with request fragmentation, routing over 1-3 gateway instances on the same storage and restarts; non-trivial = an acknowledged write that was later read back; distinct = (upload kind/encoding, size class, key class, storage config, read kind, served by another instance, restart in between); a quarter of the runs: concurrent uploads of DIFFERENT keys by 2-4 clients under rand/PCT schedules, every acknowledged upload read back afterwards (distinct = interleaving hash)"
 }
 func (c01) Runs(tier string) int {
 	if tier == "thorough" {
